@@ -5,6 +5,7 @@ use super::SimCheck;
 use crate::cfg::{env, Cfg, PoolCfg, Script};
 use crate::explore::{Limits, Violation};
 use crate::mockpg::Rec;
+use crate::wire;
 use crate::world::{Opts, Outcome, Scenario, Step};
 
 fn client(c: usize, db: &str, prog: &str) -> Script {
@@ -22,6 +23,27 @@ fn client(c: usize, db: &str, prog: &str) -> Script {
         }
         "one" => {
             s = s.q(&format!("SELECT 1 /*{}*/", tag(c, 0, 0)));
+        }
+        // batches the pooler answers by itself (a lone Sync) between the transactions: the client is
+        // between transactions all the same
+        "sync-autos" => {
+            s = s
+                .send_z(wire::sync(), "lone S")
+                .q(&format!("SELECT 1 /*{}*/", tag(c, 0, 0)))
+                .send_z(wire::sync(), "lone S")
+                .q(&format!("SELECT 2 /*{}*/", tag(c, 1, 0)))
+                .send_z(wire::sync(), "lone S")
+                .q(&format!("SELECT 3 /*{}*/", tag(c, 2, 0)));
+        }
+        // extended-protocol transactions
+        "ext-autos" => {
+            for j in 0..3 {
+                let mut b = wire::parse("", &format!("SELECT 1 /*{}*/", tag(c, j, 0)), &[]);
+                b.extend(wire::bind("", "", &[], &[], &[]));
+                b.extend(wire::execute("", 0));
+                b.extend(wire::sync());
+                s = s.send_z(b, "P B E S");
+            }
         }
         _ => panic!("prog"),
     }
@@ -250,9 +272,9 @@ pub fn build(tier: &str) -> SimCheck {
     for pool_size in [1u32, 2] {
         for per_pool in [false, true] {
             let prog_sets: Vec<Vec<&str>> = if thorough {
-                vec![vec!["two-txn", "two-txn"], vec!["autos", "two-txn"], vec!["two-txn", "autos", "one"], vec!["autos", "autos", "autos"]]
+                vec![vec!["two-txn", "two-txn"], vec!["autos", "two-txn"], vec!["two-txn", "autos", "one"], vec!["autos", "autos", "autos"], vec!["sync-autos", "ext-autos"], vec!["sync-autos", "two-txn", "one"]]
             } else {
-                vec![vec!["two-txn", "autos"], vec!["one", "one", "one"]]
+                vec![vec!["two-txn", "autos"], vec!["one", "one", "one"], vec!["sync-autos", "ext-autos"]]
             };
             for progs in prog_sets {
                 let admin_sets: Vec<Vec<&str>> = if thorough {
@@ -275,7 +297,7 @@ pub fn build(tier: &str) -> SimCheck {
         oracle: Box::new(oracle),
         bound: if thorough { 3 } else { 2 },
         limits: Limits { max_wall_s: if thorough { 7200.0 } else { 55.0 }, ..Default::default() },
-        rule: "scenario = pool_size {1,2} x global / per-pool PAUSE x client programs (2-3 clients of the paused pool with multi-statement and autocommit transactions, one client of another pool) x admin sequence (P;R / P;R;P;R / R;P;R / P;P;R), plus the scripted 'statement already queued for the only server when PAUSE arrives' scenario; all schedules with <= bound deviations: PAUSE and RESUME land while clients are idle, arriving, mid-transaction, between transactions or queued for a connection".into(),
+        rule: "scenario = pool_size {1,2} x global / per-pool PAUSE x client programs (2-3 clients of the paused pool with multi-statement and autocommit transactions, extended-protocol transactions, lone Sync batches (answered by the pooler itself) between transactions, one client of another pool) x admin sequence (P;R / P;R;P;R / R;P;R / P;P;R), plus the scripted 'statement already queued for the only server when PAUSE arrives' scenario; all schedules with <= bound deviations: PAUSE and RESUME land while clients are idle, arriving, mid-transaction, between transactions or queued for a connection".into(),
         assumptions: vec!["paused interval = from the PAUSE reply being read by the admin client to the RESUME being sent".into(), "interleavings below await-point granularity are decided by the loom part".into()],
     }
 }
